@@ -183,6 +183,26 @@ let run_case (line : String.t) : String.t =
             | CRaise e -> "X " ^ exn_name e
             | CFuel -> "F")
        | _ -> "ERR bad M case")
+  | "F" :: fname :: rest ->
+      (* library functions of the model, one at a time *)
+      let arg k = str_of_token (List.nth rest k) in
+      (match fname with
+       | "lower" -> token_of_str (lower (arg 0))
+       | "strip" -> token_of_str (strip (arg 0))
+       | "lstrip" -> token_of_str (lstrip (arg 0))
+       | "rstrip" -> token_of_str (rstrip (arg 0))
+       | "escape" -> token_of_str (escape (arg 0))
+       | "replace" -> token_of_str (replace_all (arg 0) (arg 1) (arg 2))
+       | "reader" -> String.concat " " (List.map token_of_str (mk_reader (arg 0)))
+       | "slug" ->
+           (match List.rev rest with
+            | text :: ids -> token_of_str (slugify (List.rev_map str_of_token ids) (str_of_token text))
+            | [] -> "ERR bad F slug")
+       | "qpara" -> token_of_str (quoteParagraphContentFilter (arg 0))
+       | "indent" ->
+           (match indentedContentFilter (arg 0) with
+            | Ok t -> token_of_str t | Raise e -> "X " ^ exn_name e | Fuel -> "F")
+       | _ -> "ERR unknown F function")
   | _ -> "ERR bad case"
 
 let () =
